@@ -60,6 +60,8 @@ def cells(tier, seed):
         rng.shuffle(order)
         out.append({"D": D, "sig": si, "order": order, "shape": rng.choice(SHAPES[D]), "lead": rng.choice([(), (5,), (5, 7)]),
                     "chain": [rng.choice(TRIPS) for _ in range(rng.choice([2, 3]))]})
+    for D in (2, 3):
+        out.append({"kind": "metadata", "D": D})
     for mc in (SAVELOAD_MODELS if tier == "thorough" else SAVELOAD_MODELS[:3]) + SAVELOAD_WRAPPED:
         out.append({"kind": "saveload", "model": mc})
     return out
@@ -79,6 +81,50 @@ SAVELOAD_WRAPPED = [{"cls": "resnet", "D": 2, "sig": 0, "equiv": False, "depth":
 
 def exhaustive(tier):
     return False
+
+
+def _metadata(cfg, cx):
+    """Every MultiImage operation that returns a MultiImage keeps D, the boundary flags (permuted by a group element) and the
+    types in their stored order (except where the operation is specified to change them): a table of discrete facts."""
+    import jax
+    import jax.numpy as jnp
+    import ginjax.geometric as geom
+    D = cfg["D"]
+    N = 2
+    for flags in ((True,) * D, tuple(i % 2 == 0 for i in range(D))):
+        for types in ([((1, 0), 2), ((0, 1), 1), ((0, 0), 2)], [((0, 0), 1), ((1, 1), 2)], [((2, 0), 1), ((0, 0), 2)]):
+            keys = [kp for kp, _ in types]
+            m = geom.MultiImage({kp: jnp.ones((3, c) + (N,) * D + (D,) * kp[0]) for kp, c in types}, D, flags)
+            g = np.eye(D, dtype=int)[::-1].copy() if D == 2 else np.roll(np.eye(3, dtype=int), 1, axis=0)
+            gflags = tuple(bool(v) for v in np.abs(g) @ np.array(flags))
+            same = (D, flags, keys)
+            cases = {
+                "copy": (lambda: m.copy(), same), "a+b": (lambda: m + m, same), "a-b": (lambda: m - m, same), "a*2": (lambda: m * 2.0, same),
+                "a/2": (lambda: m / 2.0, same), "concat": (lambda: m.concat(m), same), "concat(axis=1)": (lambda: m.concat(m, axis=1), same),
+                "concat_inverse[0]": (lambda: m.concat(m).concat_inverse({kp: 3 for kp in keys})[0], same),
+                "concat_inverse[1]": (lambda: m.concat(m).concat_inverse({kp: 3 for kp in keys})[1], same),
+                "from_vector": (lambda: geom.MultiImage.from_vector(m.to_vector(), m), same),
+                "to_scalar_multi_image": (lambda: m.to_scalar_multi_image(), (D, flags, [(0, 0)])),
+                "from_scalar_multi_image": (lambda: m.to_scalar_multi_image().from_scalar_multi_image(m.get_signature()), same),
+                "times_group_element": (lambda: m.times_group_element(g), (D, gflags, keys)),
+                "norm": (lambda: m.norm(), (D, flags, [(0, 0)])), "average_pool": (lambda: m.average_pool(2), same),
+                "get_component": (lambda: m.get_one(0, keepdims=False).get_component(0), (D, flags, [(0, 0)])),
+                "batch_get_component": (lambda: m.batch_get_component(0), (D, flags, [(0, 0)])), "expand": (lambda: m.expand(0, 1), same),
+                "combine_axes": (lambda: m.combine_axes((0, 1)), same), "merge_axes": (lambda: m.merge_axes([0, 1]), same),
+                "reshape_pmap": (lambda: m.reshape_pmap([None]), same), "get_subset": (lambda: m.get_subset(jnp.array([2, 0])), same),
+                "get_one": (lambda: m.get_one(1), same), "get_one(keepdims=False)": (lambda: m.get_one(1, keepdims=False), same),
+                "empty": (lambda: m.empty(), (D, flags, [])), "from_images(to_images)": (lambda: geom.MultiImage.from_images(m.get_one(0, keepdims=False).to_images()), same),
+                "jit": (lambda: jax.jit(lambda q: q)(m), (D, flags, sorted(keys))), "vmap": (lambda: jax.vmap(lambda q: q)(m), (D, flags, sorted(keys))),
+            }
+            for nm, (fn, (eD, ef, ek)) in cases.items():
+                try:
+                    o = fn()
+                    got = (o.D, tuple(o.is_torus), list(o.keys()))
+                except Exception as e:  # noqa: BLE001
+                    got = f"raised {type(e).__name__}: {str(e)[:80]}"
+                cx.structural(f"metadata of {nm} on {keys} flags={flags}", got == (eD, tuple(ef), ek),
+                              f"(D, is_torus, types in stored order) = {got}, expected {(eD, tuple(ef), ek)}",
+                              key=f"meta:{nm}:D={D}:types={keys}:flags={flags}")
 
 
 def _saveload(cfg, cx):
@@ -238,6 +284,8 @@ def run_cell(cfg, cx):
 
     if cfg.get("kind") == "saveload":
         return _saveload(cfg, cx)
+    if cfg.get("kind") == "metadata":
+        return _metadata(cfg, cx)
     D = cfg["D"]
     sg = [(tuple(kp), c) for kp, c in SIGS[D][cfg["sig"]]]
     sg = [sg[i] for i in cfg["order"]]
